@@ -51,7 +51,7 @@ func init() {
 			"bucketed script mix) shape",
 		Real: []string{"stats (serverCollector, trafficCollector, Snapshot, SnapshotAndReset)", "api/ssm (handleGetStats, handleGetUser, handleAddUser, routing via http.ServeMux)",
 			"api/internal/restapi", "cred (Manager.RegisterServer, ManagedServer.GetCredential/AddCredential/LoadFromFile)", "encoding/json of the answers"},
-		Stub: []string{"sync.Mutex/RWMutex (simulated, scheduling points)", "disk holding the uPSK store (simos.FS)", "HTTP transport (handlers are called through httptest, no sockets)"},
+		Stub: []string{"sync.Mutex/RWMutex (simulated, scheduling points)", "disk holding the uPSK store (simos.FS)", "HTTP transport (handlers are called through httptest recorders, or a response writer that fails from a drawn byte on; no sockets)"},
 		Assumptions: []string{
 			"a UDP session is recorded by exactly one CollectUDPSessionUplink and one CollectUDPSessionDownlink call (as service/udp_*.go does) and counts as one session once both returned",
 			"?clear and ?clear=true reset, no query and ?clear=false do not (Shadowsocks Server Management API v1)",
@@ -688,6 +688,12 @@ func Run(s *simrt.Sim) {
 	observeAPI := func(sv *server, query string, reset bool) bool {
 		path := "/servers/" + sv.name + "/stats" + query
 		what := "GET " + path
+		if s.GenChance(48) {
+			// an earlier reader of the same (non-clearing) document hangs up part-way through the
+			// body; what the next reader gets must not depend on it
+			s.Fault("c14.api-client-gone")
+			api.DoBroken("GET", "/servers/"+sv.name+"/stats", s.Choose(48))
+		}
 		o := sv.beginObs(s, what, reset)
 		code, body := api.Do("GET", path, "")
 		sv.endObs(o)
